@@ -715,6 +715,8 @@ class SigmaCorrelationRule(SigmaRuleBase, ProcessingItemTrackingMixin):
             "group-by": self.group_by,
             "aliases": self.aliases.to_dict() if self.aliases is not None else None,
         }
+        if self.generate:
+            dc["generate"] = True
 
         # Serialize condition based on its type
         if self.condition is not None:
